@@ -67,3 +67,5 @@ MUTS = [
 #   c20_include_startline_not_saved          : delete `Tag->StartLine = MomLineCounter;` in ExpandINCLUDE_Core
 #   c20_include_restorer_keeps_counter       : delete `MomLineCounter = PInp->StartLine;` in INCLUDE_Restorer
 # all seven are reported by ./check C11 / C20 --tier quick (families `scope` / `after`); six pass 201/201 ctest.
+# third round: c11_drop_empty_excess_args: in ExpandMacro `else if (z1 > OneMacro->ParamCount)` gets
+#   `&& (strlen(ArgStr[z1].str.p_str) > 0)`  -> reported by family `shifthole` (ctest 201/201)
